@@ -6,6 +6,7 @@
 #![allow(dead_code, unused_imports)]
 mod alpha;
 mod astobs;
+mod descobs;
 mod input;
 mod interp;
 mod pairs;
@@ -14,6 +15,7 @@ mod polobs;
 mod psbtobs;
 mod sat;
 mod tapobs;
+mod transobs;
 mod types;
 mod uni;
 mod world;
@@ -59,6 +61,8 @@ fn main() {
             "policy" => polobs::run_case(&u, &case),
             "psbt" => psbtobs::run_case(&u, &case),
             "tap" => tapobs::run_case(&u, &case),
+            "desc" => descobs::run_case(&u, &case),
+            "translate" => transobs::run_case(&u, &case),
             _ => {
                 eprintln!("unknown command {}", cmd);
                 std::process::exit(2);
